@@ -234,6 +234,18 @@ def collect(tier, seed):
     return events, viol, stats
 
 
+def registry_scan():
+    """(operator, rule) pairs of the live registry whose source mentions a measurement: completeness cross-check of the instance set."""
+    import re
+    from pennylane.decomposition import decomposition_rule as dr
+    out = set()
+    for opname, coll in getattr(dr, "_decompositions_private", {}).items():
+        for rule in coll:
+            if re.search(r"ppm|measure", (getattr(rule, "_source", "") or "") + rule.name, re.I):
+                out.add(f"{opname}:{rule.name}")
+    return out
+
+
 # ------------------------------------------------------------------------------------------ TLC
 def tlc_case(ev, emit=1, ops=None):
     return {"n": ev["n"], "cs": ev["cs"], "prep": ev["prep"], "ref": ev["ref"], "ops": ops if ops is not None else ev["ops"],
@@ -322,6 +334,8 @@ def make_qfunc(ev, psi, branch, ret):
 
     def f():
         qp.StatePrep(psi, wires=[p - 1 for p in ev["ipos"]])
+        for w in range(ev["n"]):      # touch every wire up front: tree-traversal sizes its state from the first segment's wires
+            qp.Identity(w)
         for r in ev["prep"]:
             decode_gate(r, M)
         new, k = {}, 0
@@ -371,7 +385,9 @@ def replay(ev, branches, Rnp, rng, viol, counts):
                                   f"exact branch weights {exp.round(6).tolist()} for {ev['op']} / {ev['rule']}", replay=_rp(ev)))
     except Exception as e:
         counts["replay_errors"][f"{type(e).__name__}: {str(e)[:80]}"] = counts["replay_errors"].get(f"{type(e).__name__}: {str(e)[:80]}", 0) + 1
-    for b in branches:
+    todo = branches if len(branches) <= 128 else rng.sample(branches, 128)
+    counts["branches_attempted"] += len(todo)
+    for b in todo:
         Kb = lib.ring_matrix_to_numpy(b["km"], M)
         v = Kb @ psi
         nv = np.linalg.norm(v)
@@ -423,11 +439,16 @@ def run(tier, seed):
         raise lib.MachineryError("no measurement-based rule discovered (vacuous)")
     max_k = 6 if tier == "quick" else 12
     max_n = 6 if tier == "quick" else 7
-    sel, seen = [], {}
+    sel, seen, big = [], {}, 0
     for ev in events:
         if ev["k"] > max_k or ev["n"] > max_n:
             stats["skipped"]["too many branches / wires for this tier"] = stats["skipped"].get("too many branches / wires for this tier", 0) + 1
             continue
+        if ev["k"] >= 8:
+            big += 1
+            if big > 3:
+                stats["skipped"]["more than 3 circuits with >= 256 branches"] = stats["skipped"].get("more than 3 circuits with >= 256 branches", 0) + 1
+                continue
         seen[ev["key"]] = seen.get(ev["key"], 0) + 1
         if tier == "quick" and seen[ev["key"]] > 3:
             stats["skipped"]["quick tier: more than 3 instances of one (operator, rule)"] = \
@@ -459,7 +480,7 @@ def run(tier, seed):
     br, refs, r1 = run_branch_eval(cases + gcases + neg, "branches", 1200 if tier == "quick" else 3000)
     states, trans = rs.distinct + r1.distinct, rs.generated + r1.generated
     # ---- verdicts
-    counts = {"weight_comparisons": 0, "branches_replayed": 0, "statement_checked_numerically": 0, "replay_errors": {}}
+    counts = {"weight_comparisons": 0, "branches_attempted": 0, "branches_replayed": 0, "statement_checked_numerically": 0, "replay_errors": {}}
     n_br, n_ok, samples, nontriv, hist = 0, 0, [], set(), {}
     aux_varies, phase_varies = 0, 0
     for i, ev in enumerate(sel):
@@ -522,14 +543,18 @@ def run(tier, seed):
             rejected[kind] = rejected.get(kind, 0) + 1
     if not neg_kind or any(rejected.get(kd, 0) != neg_kind.count(kd) for kd in set(neg_kind)):
         raise lib.MachineryError(f"negative controls: rejected {rejected} of {len(neg_kind)} ({ {kd: neg_kind.count(kd) for kd in set(neg_kind)} })")
-    if counts["branches_replayed"] == 0:
-        raise lib.MachineryError(f"no branch could be replayed on default.qubit: {counts['replay_errors']}")
+    if counts["branches_replayed"] < 0.8 * counts["branches_attempted"]:
+        raise lib.MachineryError(f"only {counts['branches_replayed']} of {counts['branches_attempted']} branches could be replayed on "
+                                 f"default.qubit: {counts['replay_errors']}")
+    scan = registry_scan()
     cov = {"states": states, "transitions": trans, "traces_validated_against_impl": len(sel), "evaluations": n_br,
            "distinct_nontrivial": len(nontriv),
            "rule": "every (operator instance, registered rule) whose emitted circuit contains a measurement or a classically controlled "
                    "operation; non-trivial = distinct (operator, rule) pairs with >= 2 non-null outcome branches, all decided 'ok' by TLC",
            "samples": samples, "exhaustive": True, "branches_decided": n_br, "branches_ok": n_ok, "branch_count_histogram": hist,
            "measurement_rules_found": sorted({ev["key"] for ev in events}), "rules_gated_by_compiler": sorted({ev["key"] for ev in events if ev["gated"]}),
+           "registry_rules_mentioning_measurement": sorted(scan),
+           "registry_measurement_rules_not_exercised": sorted(scan - {ev["key"] for ev in sel}),
            "ppm_vs_gadget_branches_agree": agree, "negative_controls_rejected": sum(rejected.values()),
            "aux_state_varies_with_outcome(evidence only)": aux_varies, "global_phase_varies_with_outcome(evidence only)": phase_varies,
            "ppm_law_states": rs.distinct, **counts, **stats}
